@@ -50,9 +50,6 @@ private theorem packJGo_nones_ge : ∀ (items : List JItem) (i off : Nat) (p : J
       rcases hj with rfl | hj
       · omega
       · have := ih _ _ _ hp' j hj; omega
-    | dropped =>
-      simp only [packJGo] at h
-      have := ih _ _ _ h j hj; omega
     | err => simp [packJGo] at h
     | data sh dt vals =>
       simp only [packJGo, Option.map_eq_some_iff] at h
@@ -87,7 +84,6 @@ private theorem unpackGo_packJGo (d : DT) : ∀ (items : List JItem) (i off : Na
       have := ih (i + 1) off p' hp' hgr pre N hpre hN'
       simp only [List.length_cons, unpackGo, hi, if_true, List.map_cons, outJ]
       rw [this]; rfl
-    | dropped => exact absurd hgit (by simp [ItemGood])
     | err => exact absurd hgit (by simp [ItemGood])
     | data sh dt vals =>
       cases sh with
@@ -121,8 +117,8 @@ private theorem unpackGo_packJGo (d : DT) : ∀ (items : List JItem) (i off : Na
 
 /-- modelled domain + well-formedness for the ragged strategy: the entry is None / empty, or
 contributes one rectangular block of dtype `d` whose data length matches its shape
-(excludes: 0-d arrays, ragged nested lists, numpy-bool / str scalars and dicts — the entries
-`JaggedArray.__init__` falls back on or silently leaves out, see findings.d/C05.txt). -/
+(excludes ragged nested lists, which `JaggedArray.__init__` flattens — see findings.d/C05.txt —, and the
+entries it refuses with an exception: 0-d arrays and, since fix 8558ef4, numpy-bool / str scalars and dicts). -/
 def JGood (d : DT) (e : Entry) : Prop :=
   match classifyJ e with
   | .none => True
@@ -164,7 +160,6 @@ private theorem jgood_item (d : DT) (e : Entry) (h : JGood d e) : ItemGood d (cl
   generalize hc : classifyJ e = c at h
   cases c with
   | none => trivial
-  | dropped => exact h
   | err => exact h
   | data sh dt vals =>
     cases sh with
@@ -226,7 +221,6 @@ private theorem packJGo_facts (d : DT) : ∀ (items : List JItem) (i off : Nat) 
       obtain ⟨a, b', c, e, f⟩ := ih _ _ _ hp' hgr
       refine ⟨a, b', ?_, e, f⟩
       simp; omega
-    | dropped => exact absurd hgit (by simp [ItemGood])
     | err => exact absurd hgit (by simp [ItemGood])
     | data sh dt vals =>
       cases sh with
@@ -674,6 +668,73 @@ private theorem exists_of_not_all {α} (p : α → Bool) : ∀ (l : List α), ¬
       obtain ⟨e, he, hpe⟩ := ih this
       exact ⟨e, List.mem_cons_of_mem _ he, hpe⟩
 
+/-- the one remaining exclusion of the ragged strategy: a Python list of lists must be rectangular
+(`JaggedArray` flattens a ragged one and stores an int instead of a shape: written, unreadable — known finding) -/
+def NoRaggedNest : Entry → Prop
+  | .list2 _ _ rows => (rectangular rows).isSome = true
+  | _ => True
+
+private theorem packJGo_no_err : ∀ (items : List JItem) (i off : Nat) (p : JPacked),
+    packJGo items i off = some p → ∀ it ∈ items, it ≠ JItem.err := by
+  intro items
+  induction items with
+  | nil => intro i off p _ it hit; simp at hit
+  | cons x r ih =>
+    intro i off p h it hit
+    cases x with
+    | err => simp [packJGo] at h
+    | none =>
+      simp only [packJGo, Option.map_eq_some_iff] at h
+      obtain ⟨p', hp', _⟩ := h
+      rcases List.mem_cons.mp hit with rfl | hr
+      · simp
+      · exact ih _ _ _ hp' it hr
+    | data sh dt vals =>
+      simp only [packJGo, Option.map_eq_some_iff] at h
+      obtain ⟨p', hp', _⟩ := h
+      rcases List.mem_cons.mp hit with rfl | hr
+      · simp
+      · exact ih _ _ _ hp' it hr
+
+/-- in the modelled domain, whatever `JaggedArray.__init__` does not refuse (and is not a ragged nested list) is `JGood` -/
+private theorem jgood_of_wf (np : Bool) (d : DT) (e : Entry) (hwf : EntryWF np d e) (hn : NoRaggedNest e)
+    (hne : classifyJ e ≠ JItem.err) : JGood d e := by
+  cases e with
+  | none => simp [JGood, classifyJ]
+  | dict kv => exact absurd hwf (by simp [EntryWF])
+  | scal np' dt v =>
+    simp only [EntryWF] at hwf
+    simp only [classifyJ] at hne
+    simp only [JGood, classifyJ]
+    by_cases hc : (dt.isInt || dt.isFloat || (dt = .b && !np')) = true
+    · simp only [hc, if_true]; simp [hwf.2, prod]
+    · simp only [hc] at hne; simp at hne
+  | arr dt shape data =>
+    simp only [EntryWF] at hwf
+    cases shape with
+    | nil => simp [classifyJ] at hne
+    | cons n r =>
+      simp only [JGood, classifyJ]
+      by_cases hz : n = 0
+      · simp [hz]
+      · simp [hz, hwf.1, hwf.2]
+  | list t dt xs =>
+    simp only [EntryWF] at hwf
+    simp only [JGood, classifyJ]
+    by_cases hz : xs.length = 0
+    · simp [hz]
+    · simp [hz, hwf, prod]
+  | list2 t dt rows =>
+    simp only [EntryWF] at hwf
+    simp only [NoRaggedNest] at hn
+    simp only [JGood, classifyJ]
+    by_cases hz : rows.length = 0
+    · simp [hz]
+    · simp only [hz, if_false]
+      cases hr : rectangular rows with
+      | none => simp [hr] at hn
+      | some m => simp [hwf, prod, rectangular_len rows m hr]
+
 /-- guard for the sentinel strategy inside the main theorem: when a None is present next to scalars, no
 scalar is what the reader takes for the sentinel (integers: `min+2` / `max-2`; floats: NaN) -/
 def NoSentinel (d : DT) (xs : List Entry) : Prop :=
@@ -684,11 +745,12 @@ values in the modelled domain (one dtype `d`, well-formed arrays, no dict — di
 `_writeParams` accepts the list (any of its strategies: plain array, None sentinels, ragged) then
 `_readParams` returns exactly the documented normalisation of the original list: same values, shapes,
 dtype and None positions. Hence an in-domain list is either rejected / skipped at write time or read back
-faithfully — never "accepted but different". Hypotheses `hj` and `hs` are the explicit exclusions: entries
-`JaggedArray` silently leaves out or flattens (known findings), and values equal to the None sentinel. -/
+faithfully — never "accepted but different". Only two exclusions remain after fix 8558ef4 (JaggedArray now
+refuses what it used to drop): `hn` — no ragged list-of-lists (flattened, then unreadable: known finding) — and
+`hs` — no value equal to the None sentinel next to a None. -/
 theorem write_read_faithful (xs : List Entry) (np : Bool) (d : DT)
     (hwf : ∀ e ∈ xs, EntryWF np d e)
-    (hj : jaggedTest xs = true → ∀ e ∈ xs, JGood d e)
+    (hn : ∀ e ∈ xs, NoRaggedNest e)
     (hs : NoSentinel d xs)
     (st : Stored) (h : writeParam xs = .ok st) :
     readParam xs.length st = some (xs.map (normalise (jaggedTest xs))) := by
@@ -699,7 +761,16 @@ theorem write_read_faithful (xs : List Entry) (np : Bool) (d : DT)
     split at h
     · rename_i hjag
       rw [hjag]
-      exact jagged_roundtrip xs d (hj hjag) st h
+      have hgood : ∀ e ∈ xs, JGood d e := by
+        intro e he
+        apply jgood_of_wf np d e (hwf e he) (hn e he)
+        have hw := h
+        unfold writeJagged at hw
+        split at hw
+        · simp at hw
+        · rename_i p hp
+          exact packJGo_no_err _ 0 0 p hp (classifyJ e) (List.mem_map_of_mem he)
+      exact jagged_roundtrip xs d hgood st h
     · rename_i hjag
       have hjag' : jaggedTest xs = false := by simpa using hjag
       rw [hjag']
@@ -1305,14 +1376,15 @@ example : (match writeParam [.scal false .i64 (.i (-9223372036854775806)), .none
     | .ok st => readParam 3 st | _ => Option.none) = some [.none, .none, .scal .i64 (.i 4)] := by
   decide +kernel
 
-/-- excluded point of `JGood`: two-level ragged nesting is written and cannot be read (known finding) -/
+/-- excluded point `NoRaggedNest`: two-level ragged nesting is written and cannot be read (known finding) -/
 example : (match writeParam [.list2 false .i64 [[.i 1, .i 2], [.i 3]], .list2 false .i64 [[.i 4], [.i 5, .i 6], [.i 7]]] with
     | .ok st => readParam 2 st | _ => some []) = Option.none := by
   decide +kernel
 
-/-- excluded point of `JGood`: a numpy bool scalar among ragged entries is dropped (known finding) -/
-example : (match writeParam [.scal true .b (.b true), .list false .b [.b true, .b false]] with
-    | .ok st => readParam 2 st | _ => some []) = Option.none := by
+/-- since fix 8558ef4 a numpy bool scalar, a str scalar or a dict among ragged entries is refused at write time -/
+example : writeParam [.scal true .b (.b true), .list false .b [.b true, .b false]] = .reject ∧
+    writeParam [.none, .list false .str [], .scal false .str (.s "x y")] = .reject ∧
+    writeParam [.dict [("a", some 1)], .list false .f64 [.f (some 1), .f (some 2)]] = .reject := by
   decide +kernel
 
 /-- rejected at write time, as the property allows: bool + None, str + None, dict + None, ragged tuples -/
